@@ -867,11 +867,6 @@ Proof. unfold dabs. apply tab_nil. cbn [clear_d minI maxI]. unfold MaxInt32, Min
 (* ================================================================== *)
 (* Part C: shift_counts / center_counts / extend_range                 *)
 (* ================================================================== *)
-Section Policy.
-Variable grow : Z -> Z.
-Variable fixD1 : bool.
-Hypothesis grow_ge : forall d, d <= grow d.
-
 Lemma reset_bins_with_bins s b from to :
   zlen b = len s -> (to < from \/ (offset s <= from /\ to < offset s + len s)) ->
   reset_bins (with_bins s b) from to = Some (with_bins s (reset b (from - offset s) (to - offset s))).
@@ -958,6 +953,11 @@ Definition ext_post (s : dense) (lo hi : Z) (s' : dense) : Prop :=
   minI s' = Z.min lo (minI s) /\ maxI s' = Z.max hi (maxI s) /\
   offset s' <= minI s' /\ maxI s' < offset s' + len s'.
 
+Section Policy.
+Variable grow : Z -> Z.
+Variable fixD1 : bool.
+Hypothesis grow_ge : forall d, d <= grow d.
+
 Lemma extend_range_spec s lo hi :
   Inv s -> lo <= hi -> idx_ok lo -> idx_ok hi ->
   exists s', extend_range grow fixD1 s lo hi = Some s' /\ ext_post s lo hi s'.
@@ -1002,6 +1002,8 @@ Proof.
       exists s'. split; [exact E|]. unfold ext_post. rewrite <- Elo, <- Ehi, Hmi, Hma.
       repeat split; auto; try lia; try congruence.
 Qed.
+
+End Policy.
 
 (* ================================================================== *)
 (* Part D: refinement of the operations                                *)
@@ -1066,13 +1068,18 @@ Proof.
   split; [exact I2|]. intros i. now rewrite !get_dabs, Hd by assumption.
 Qed.
 
+Section PolicyAdd.
+Variable grow : Z -> Z.
+Variable fixD1 : bool.
+Hypothesis grow_ge : forall d, d <= grow d.
+
 Lemma normalize_spec s i :
   Inv s -> idx_ok i ->
   exists s1, normalize grow fixD1 s i = Some (s1, i - offset s1) /\ ext_post s i i s1.
 Proof.
   intros I Ii. unfold normalize. rewrite (inv_lim s I).
   destruct ((i <? minI s) || (maxI s <? i)) eqn:E.
-  - destruct (extend_range_spec s i i I (Z.le_refl i) Ii Ii) as (s1 & E1 & P). rewrite E1. eauto.
+  - destruct (extend_range_spec grow fixD1 grow_ge s i i I (Z.le_refl i) Ii Ii) as (s1 & E1 & P). rewrite E1. eauto.
   - exists s. split; [reflexivity|].
     assert (N : count s <> w0) by (apply Inv_nonempty_iff; [exact I|lia]).
     destruct (inv_win s I N) as (W1 & W2 & W3). unfold ext_post. repeat split; auto; lia.
@@ -1143,6 +1150,8 @@ Proof.
     exists s'. rewrite add_list_cons. cbn [fst snd]. rewrite E1. split; [exact E'|split; [exact I'|]].
     rewrite A', A1. reflexivity.
 Qed.
+
+End PolicyAdd.
 
 (* ---- ForEach / observers ---- *)
 Lemma zrange_shift a b d : zrange (a - d) (b - d) = map (fun i => i - d) (zrange a b).
@@ -1367,6 +1376,11 @@ Qed.
 (* ---- Clear ---- *)
 Theorem clear_d_spec s : lim s = Exact -> Inv (clear_d s) /\ dabs (clear_d s) = [].
 Proof. intros H. split; [now apply Inv_clear|apply dabs_clear]. Qed.
+Section PolicyMerge.
+Variable grow : Z -> Z.
+Variable fixD1 : bool.
+Hypothesis grow_ge : forall d, d <= grow d.
+
 (* a cleared store cannot be told from a new one: the retained offset never leaks *)
 Theorem clear_like_new s l :
   lim s = Exact -> bins_ok l ->
@@ -1374,8 +1388,8 @@ Theorem clear_like_new s l :
                 Inv s1 /\ Inv s2 /\ dabs s1 = dabs s2.
 Proof.
   intros H Hl.
-  destruct (add_list_spec l (clear_d s) (Inv_clear s H) Hl) as (s1 & E1 & I1 & A1).
-  destruct (add_list_spec l (new_dense Exact) Inv_new Hl) as (s2 & E2 & I2 & A2).
+  destruct (add_list_spec grow fixD1 grow_ge l (clear_d s) (Inv_clear s H) Hl) as (s1 & E1 & I1 & A1).
+  destruct (add_list_spec grow fixD1 grow_ge l (new_dense Exact) Inv_new Hl) as (s2 & E2 & I2 & A2).
   exists s1, s2. split; [exact E1|split; [exact E2|split; [exact I1|split; [exact I2|]]]].
   now rewrite A1, A2, dabs_clear, dabs_new.
 Qed.
@@ -1519,4 +1533,81 @@ Proof.
   intros H. destruct (run_refines_from ops (new_dense Exact) Inv_new H) as (s & E & I & A).
   exists s. rewrite dabs_new in A. auto.
 Qed.
-End Policy.
+End PolicyMerge.
+
+(* ================================================================== *)
+(* Extras: ForEach list vs. bins_of_list; an executable checker of Inv *)
+(* ================================================================== *)
+
+(* a canonical list is a fixpoint of bins_of_list: the abstraction can equally be read off the
+   ForEach enumeration *)
+Lemma bins_of_list_canon (b : list (Z * W)) : wf b = true -> posb b -> bins_of_list b = b.
+Proof.
+  intros Hw Hp. unfold bins_of_list.
+  destruct (bmerge_list_spec b [] eq_refl posb_nil) as (M1 & _ & M3).
+  { intros k w Hi. apply wlt_le. now apply (Hp k). }
+  apply bins_ext; [exact M1|exact Hw|]. intros i. rewrite M3. cbn [get]. rewrite wadd_0_l.
+  destruct (wf_above b 0 Hw) as [lo [_ Hlo]]. now apply (gsum_get lo).
+Qed.
+Theorem foreach_abs s : Inv s -> exists l, foreach s = Some l /\ bins_of_list l = dabs s.
+Proof.
+  intros I. exists (dabs s). split; [now apply foreach_spec|].
+  apply bins_of_list_canon; [apply dabs_wf|now apply dabs_pos].
+Qed.
+
+Definition inv_checkb (s : dense) : bool :=
+  match lim s with Exact => true | _ => false end &&
+  forallb (wleb w0) (bins s) &&
+  weqb (count s) (sumW (bins s)) &&
+  (if weqb (count s) w0
+   then (minI s =? MaxInt32) && (maxI s =? MinInt32) && forallb (fun x => weqb x w0) (bins s)
+   else (offset s <=? minI s) && (minI s <=? maxI s) && (maxI s <? offset s + len s) &&
+        wltb w0 (dget s (minI s)) && wltb w0 (dget s (maxI s)) &&
+        idx_okb (minI s) && idx_okb (maxI s) &&
+        forallb (fun j => weqb (at_ (bins s) j) w0 || ((minI s - offset s <=? j) && (j <=? maxI s - offset s)))
+                (zrange 0 (len s - 1))).
+
+Lemma at_all0 l : (forall x, In x l -> x = w0) -> forall k, at_ l k = w0.
+Proof.
+  intros H k. unfold at_. destruct (k <? 0); [reflexivity|].
+  destruct (nth_in_or_default (Z.to_nat k) l w0) as [Hi | E]; [now apply H|exact E].
+Qed.
+
+Theorem inv_checkb_sound s : inv_checkb s = true -> Inv s.
+Proof.
+  unfold inv_checkb. intros H.
+  apply andb_true_iff in H. destruct H as [H Hcase].
+  apply andb_true_iff in H. destruct H as [H Hsum].
+  apply andb_true_iff in H. destruct H as [Hlim Hnn].
+  assert (El : lim s = Exact) by (destruct (lim s); [reflexivity|discriminate|discriminate]).
+  apply weqb_eq in Hsum.
+  assert (Hnn' : forall i, (w0 <= dget s i)%Qc).
+  { intros i. apply at_nonneg_of_all. intros x Hx. apply wleb_le.
+    rewrite forallb_forall in Hnn. now apply Hnn. }
+  destruct (weqb (count s) w0) eqn:Ec.
+  - apply weqb_eq in Ec.
+    apply andb_true_iff in Hcase. destruct Hcase as [Hcase Hz].
+    apply andb_true_iff in Hcase. destruct Hcase as [Hmi Hma].
+    apply Z.eqb_eq in Hmi. apply Z.eqb_eq in Hma.
+    assert (Hz' : forall i, dget s i = w0).
+    { intros i. apply at_all0. intros x Hx. apply weqb_eq. rewrite forallb_forall in Hz. now apply Hz. }
+    constructor; try (intros N; contradiction); auto.
+    rewrite Ec. symmetry. apply rsum_zero. intros; apply Hz'.
+  - apply weqb_neq in Ec.
+    repeat (apply andb_true_iff in Hcase; let H := fresh "Hc" in destruct Hcase as [Hcase H]).
+    rename Hcase into Hw1.
+    apply Z.leb_le in Hw1. apply Z.leb_le in Hc5. apply Z.ltb_lt in Hc4.
+    apply wltb_lt in Hc3. apply wltb_lt in Hc2.
+    unfold idx_okb in Hc1, Hc0.
+    assert (Hout : forall i, i < minI s \/ maxI s < i -> dget s i = w0).
+    { intros i Hi. unfold dget. destruct (Z_lt_dec (i - offset s) 0) as [L|L]; [apply at_out; lia|].
+      destruct (Z_le_dec (zlen (bins s)) (i - offset s)) as [G|G]; [apply at_out; lia|].
+      rewrite forallb_forall in Hc. specialize (Hc (i - offset s)).
+      rewrite in_zrange in Hc. unfold len in Hc. specialize (Hc ltac:(lia)).
+      apply orb_true_iff in Hc. destruct Hc as [Hc|Hc]; [now apply weqb_eq|lia]. }
+    constructor; auto; try (intros E; contradiction).
+    + rewrite Hsum, sumW_rsum.
+      rewrite <- (rsum_shift (at_ (bins s)) (offset s) 0 (zlen (bins s) - 1)). fold (dget s).
+      apply rsum_widen; [exact Hout| | |]; unfold len in *; lia.
+    + intros _. unfold idx_ok. lia.
+Qed.
